@@ -192,6 +192,27 @@ def drive_misc(run, rng, tier):
     fm.linsteps([0, 1], num=3, axis=0)
     fm.linsteps([0, -1, 4], num=5, axis=2, axes=3, values=[1.0, 2.0, 3.0])
     fm.linsteps([2.0], num=4)
+    # strain measures taken from the n-th field of a container (documented index argument)
+    import felupe as fem
+    from ..util import maxabs
+    mesh = fem.Cube(n=3)
+    reg = fem.RegionHexahedron(mesh)
+    cont = fem.FieldContainer([fem.Field(reg, dim=3), fem.Field(reg, dim=3)])
+    for f in cont.fields:
+        f.values[:] = 0.1 * rng.standard_normal(f.values.shape)
+    for n_ in (0, 1):
+        Fq = cont[n_].extract(grad=True, sym=False, add_identity=True)
+        Cq = np.einsum("ki...,kj...->ij...", Fq, Fq)
+        w, N = np.linalg.eigh(np.moveaxis(Cq, (0, 1), (-2, -1)))
+        for k_, f_ in ((0, lambda lam2: np.log(lam2) / 2), (2, lambda lam2: (lam2 - 1) / 2)):
+            ref = np.moveaxis(np.einsum("...a,...ia,...ja->...ij", f_(w), N, N), (-2, -1), (0, 1))
+            for what, got in (("math.strain", fm.strain(cont, k=k_, n=n_)),
+                              ("field.evaluate.strain", cont.evaluate.strain(k=k_, n=n_)),
+                              ("field.evaluate.%s" % ("log_strain" if k_ == 0 else "green_lagrange_strain"),
+                               (cont.evaluate.log_strain if k_ == 0 else cont.evaluate.green_lagrange_strain)(n=n_))):
+                run.compare("math.strain-of-field", "routine=%s[n=%d] clause=value" % (what, n_), maxabs(np.asarray(got) - ref), 1e-12,
+                            "%s(n=%d) is not the Seth-Hill strain of field %d of the container" % (what, n_, n_), unit="math:strain-of-field[n=%d]" % n_,
+                            config=("strain-of-field", what, n_, k_))
     for _ in range(4 if tier == "quick" else 40):
         n = int(rng.integers(2, 6))
         pts = rng.uniform(-2, 2, n)
@@ -236,7 +257,7 @@ def _required():
         req += ["math:dddot[mode=(3, 3),parallel=%s]" % p, "math:cdya_ik[parallel=%s]" % p,
                 "math:cdya_il[parallel=%s]" % p, "math:cdya[parallel=%s]" % p]
     req += ["math:dya[mode=1]", "math:dya[mode=2]", "math:transpose[mode=1]", "math:transpose[mode=2]",
-            "math:majortranspose", "math:cross", "math:eigh", "math:eigh[UPLO=L,triangular-storage]", "math:eigh[UPLO=U,triangular-storage]", "math:eig", "math:eigvals", "math:eigvals[shear=True]", "math:eigvalsh[shear=False]",
+            "math:majortranspose", "math:cross", "math:eigh", "math:eigh[UPLO=L,triangular-storage]", "math:eigh[UPLO=U,triangular-storage]", "math:eig", "math:eigvals", "math:eigvals[shear=True]", "math:strain-of-field[n=0]", "math:strain-of-field[n=1]", "math:eigvalsh[shear=False]",
             "math:eigvalsh[shear=True]", "math:inplane", "math:identity", "math:reshape", "math:ravel",
             "math:solve_nd[n=1]", "math:solve_nd[n=2]", "math:rotation_matrix[dim=2,axis=-]",
             "math:rotation_matrix[dim=3,axis=0]", "math:rotation_matrix[dim=3,axis=1]",
